@@ -292,7 +292,7 @@ def grid_cases(tier, seed):
 PARTS = [
     Part("grid", "enum", check, cases=grid_cases, shards={"quick": 4, "thorough": 8}),
     Part("random", "hyp", check, strategy=case_strategy,
-         examples={"quick": 250, "thorough": 1500}, shards={"quick": 6, "thorough": 16}),
+         examples={"quick": 250, "thorough": 8000}, shards={"quick": 6, "thorough": 16}),
 ]
 
 
